@@ -77,6 +77,26 @@ Theorem C01_history : forall e c0 xs now d orcs,
 Proof. exact C01_history_proof. Qed.
 Print Assumptions C01_history.
 
+(* ... and through UdpClient.update (the client's receive loop): an update() that reads a forged
+   datagram from the socket is exactly an update() that reads nothing, run on the state with
+   stats.dropped + 1 (client_send_part = the build / send / time-out part of update()) *)
+Theorem C01_update_path : forall e c now d orcs k,
+  c_key c = Some k -> ~ authentic k d ->
+  client_tick e c now (RxDgram d orcs) =
+    let '(c1, o0) := client_update c now in
+    if status_eqb (c_status c1) DROPPED then (c1, o0)
+    else let '(c2, o) := client_send_part e (c1 <| c_dropped := c_dropped c1 + 1 |>) now in (c2, o0 ++ o).
+Proof. exact C01_update_path_proof. Qed.
+Print Assumptions C01_update_path.
+
+Theorem C01_update_without_datagram : forall e c now,
+  client_tick e c now RxNone =
+    let '(c1, o0) := client_update c now in
+    if status_eqb (c_status c1) DROPPED then (c1, o0)
+    else let '(c2, o) := client_send_part e c1 now in (c2, o0 ++ o).
+Proof. exact client_tick_none. Qed.
+Print Assumptions C01_update_without_datagram.
+
 (* 5. The symbolic notion, at the byte level (Wire.from_bytes = Packet.from_bytes over abstract
       AES-GCM).  Premises: AEAD integrity and injectivity of seal (assumptions about the
       `cryptography` package, see the trusted base).  A key holder accepts a byte datagram only
